@@ -1,7 +1,10 @@
 """C17 (G): parser half.  TLC enumerates every token sequence of spec/Grammar.tla (three languages) up to a small
 length (plus -simulate samples of longer SPL sequences in the thorough tier); each text is parsed twice by the real
 parser (same text => same plan, no hang) and every text that parses is executed over a small stored data set
-(answer or error in bounded time, process alive)."""
+(answer or error in bounded time, process alive).  Two further product grammars are executed completely:
+GrammarEval (positional eval functions x boundary arguments) and GrammarProm (PromQL range function x selector form incl.
+subquery step classes x shape of the request's time range x outer aggregation); a hang is a verdict only when the same
+request hangs again on a fresh process over the same stored data."""
 import json
 import re
 import os
